@@ -259,6 +259,38 @@ fn related_pair() -> impl Strategy<Value = Pair> {
                 }
                 MName { labels }
             }
+            9 => {
+                // wire-form confusable: the first label of b contains the length octet and the
+                // text of a's first label (optionally of its first two labels), so the tail of
+                // b's wire form equals a's wire form although the label boundaries differ
+                let mut labels = a.labels.clone();
+                if !labels.is_empty() {
+                    let take = if labels.len() >= 2 && mask & 1 == 1 { 2 } else { 1 };
+                    let mut first = vec![lab[0]];
+                    for l in labels.iter().take(take) {
+                        first.push(l.len() as u8);
+                        first.extend_from_slice(l);
+                    }
+                    if mask & 2 == 2 {
+                        // keep the label count equal by adding the absorbed labels back in front
+                        labels.drain(..take);
+                        labels.insert(0, first);
+                        for _ in 1..take {
+                            labels.insert(0, vec![b'p']);
+                        }
+                    } else {
+                        labels.drain(..take);
+                        labels.insert(0, first);
+                        labels.insert(0, vec![b'q']);
+                    }
+                }
+                let n = MName { labels };
+                if n.is_valid() {
+                    n
+                } else {
+                    a.clone()
+                }
+            }
             _ => other,
         };
         Pair { a, b }
